@@ -1,4 +1,461 @@
-/-! Net: executable models (no Mathlib imports). -/
+import Solvor.Gen.Kernels
+import Solvor.Gen.NetConsts
+/-!
+Net (property C15): executable definitions (spec side) and mirrors of
+`solvor/articulation.py`, `solvor/kcore.py`, `solvor/pagerank.py`, `solvor/community.py`.
+
+A graph is a node list (in the order the caller iterates it) and a neighbour function on labels.
+Neighbour lists may be asymmetric, contain self loops, duplicates and labels outside the node set.
+
+Spec side ("the definitions made executable"):
+* `compCount nodes arc` – number of connected components of the symmetric closure of `arc`
+  restricted to `nodes` (`comps` lists the components; `closure` grows one by repeated sweeps).  `Reach` is the mathematical reachability it is proved against.
+* `cutVerticesDef`, `bridgesDef` – by component counting after removal.
+* `kcoreDef`, `coreNumDef` – literal repeated deletion of nodes of degree below `k`.
+* `prCheck` – non-negativity, sum, and residual of the damped PageRank equation at `Rat`.
+* `isPartition`, `modularityDef` – partition check and the modularity formula at `Rat`.
+
+Mirrors (same iteration order, same tie-breaking as the Python):
+* `buildAdj` – the insertion-ordered symmetric adjacency (`kcore`, `louvain`, and the repaired
+  `articulation_points` / `bridges` all build it with the same double loop).
+* `lowlink` – the low-link DFS of `articulation_points` and `bridges` (one traversal, both outputs).
+* `kcoreMirror` – bucket peeling (`set.pop()` modelled as "take the first element").
+* `prStep`, `pagerank` – written once over `Ops α`; instantiated at `Rat` (theorems) and at `Float`
+  (bit-level R_trace; `pySumF` is CPython 3.12's compensated `sum`).
+* `louvain` – local-moving loop with the `node_to_comm` / `comm_nodes` / `comm_degree` bookkeeping
+  and the final modularity computation, over `Ops α`.
+No Mathlib imports.
+-/
 namespace Solvor.Net
+open Solvor.Gen (Status)
+
+structure Graph where
+  nodes : List Nat
+  nb    : Nat → List Nat
+
+/-- the neighbour relation restricted to the node set (`if w in node_set`) -/
+def Graph.arc (G : Graph) (u w : Nat) : Bool :=
+  G.nodes.contains u && G.nodes.contains w && (G.nb u).contains w
+
+/-! ## Insertion-ordered maps (Python `dict`) as association lists -/
+
+def aget {α} : List (Nat × α) → Nat → α → α
+  | [], _, d => d
+  | (k', v) :: m, k, d => if k' = k then v else aget m k d
+
+def aset {α} : List (Nat × α) → Nat → α → List (Nat × α)
+  | [], k, v => [(k, v)]
+  | (k', v') :: m, k, v => if k' = k then (k, v) :: m else (k', v') :: aset m k v
+
+def hasKey {α} : List (Nat × α) → Nat → Bool
+  | [], _ => false
+  | (k', _) :: m, k => k' = k || hasKey m k
+
+def modAt {α} (f : α → α) : List α → Nat → List α
+  | [], _ => []
+  | x :: xs, 0 => f x :: xs
+  | x :: xs, i+1 => x :: modAt f xs i
+
+/-- `set.add` on a list without duplicates -/
+def addSet (l : List Nat) (v : Nat) : List Nat := if l.contains v then l else l ++ [v]
+
+/-! ## Spec: connected components by closure under the symmetric relation -/
+
+/-- `w` is joined to some member of `S` by an arc in either direction -/
+def linked (arc : Nat → Nat → Bool) (S : List Nat) (w : Nat) : Bool :=
+  S.any fun u => arc u w || arc w u
+
+/-- Repeated sweeps: move every node of `rest` that is linked to `S` into `S`, until a sweep
+moves nothing (`rest` shrinks in every productive sweep, so `rest.length` sweeps suffice). -/
+def grow (arc : Nat → Nat → Bool) : Nat → List Nat → List Nat → List Nat
+  | 0, _, S => S
+  | f+1, rest, S =>
+    let new := rest.filter (linked arc S)
+    if new.isEmpty then S
+    else grow arc f (rest.filter fun w => !linked arc S w) (S ++ new)
+
+/-- the connected component of `s` inside `nodes` -/
+def closure (nodes : List Nat) (arc : Nat → Nat → Bool) (s : Nat) : List Nat :=
+  grow arc nodes.length nodes [s]
+
+/-- component labelling: the components in node order (a node not yet inside a recorded
+component starts a new one) -/
+def compsAux (nodes : List Nat) (arc : Nat → Nat → Bool) : List Nat → List (List Nat) → List (List Nat)
+  | [], acc => acc
+  | v :: vs, acc =>
+    if acc.any (·.contains v) then compsAux nodes arc vs acc
+    else compsAux nodes arc vs (acc ++ [closure nodes arc v])
+
+def comps (nodes : List Nat) (arc : Nat → Nat → Bool) : List (List Nat) := compsAux nodes arc nodes []
+
+/-- number of connected components -/
+def compCount (nodes : List Nat) (arc : Nat → Nat → Bool) : Nat := (comps nodes arc).length
+
+/-- Reachability in the symmetric closure of `arc` restricted to `nodes`. -/
+inductive Reach (nodes : List Nat) (arc : Nat → Nat → Bool) : Nat → Nat → Prop
+  | refl (v : Nat) : Reach nodes arc v v
+  | step {u v w : Nat} : Reach nodes arc u v → v ∈ nodes → w ∈ nodes →
+      (arc v w || arc w v) = true → Reach nodes arc u w
+
+/-! ## Spec: cut vertices and bridges by component counting after removal -/
+
+/-- the relation with the undirected edge `{a, b}` removed -/
+def arcWithout (arc : Nat → Nat → Bool) (a b : Nat) (u w : Nat) : Bool :=
+  arc u w && !((u == a && w == b) || (u == b && w == a))
+
+/-- removal of `v` increases the number of components -/
+def isCutVertex (G : Graph) (v : Nat) : Bool :=
+  compCount (G.nodes.filter (· != v)) G.arc > compCount G.nodes G.arc
+
+/-- `{a, b}` is an edge and its removal increases the number of components -/
+def isBridge (G : Graph) (a b : Nat) : Bool :=
+  a != b && (G.arc a b || G.arc b a) &&
+  compCount G.nodes (arcWithout G.arc a b) > compCount G.nodes G.arc
+
+def cutVerticesDef (G : Graph) : List Nat := G.nodes.filter (isCutVertex G)
+
+/-- bridges as pairs `(a, b)` with `a < b`, in node order -/
+def bridgesDef (G : Graph) : List (Nat × Nat) :=
+  G.nodes.flatMap fun a => (G.nodes.filter fun b => a < b && isBridge G a b).map fun b => (a, b)
+
+/-! ## Spec: core numbers by literal repeated deletion -/
+
+/-- number of distinct neighbours of `v` (self loops ignored) among the surviving nodes `S` -/
+def degIn (G : Graph) (S : List Nat) (v : Nat) : Nat :=
+  (S.filter fun w => w != v && (G.arc v w || G.arc w v)).length
+
+/-- delete every node whose degree among the survivors is below `k` -/
+def peelRound (G : Graph) (k : Nat) (S : List Nat) : List Nat :=
+  S.filter fun v => decide (k ≤ degIn G S v)
+
+/-- repeat until nothing is deleted -/
+def peel (G : Graph) (k : Nat) : Nat → List Nat → List Nat
+  | 0, S => S
+  | f+1, S =>
+    let S' := peelRound G k S
+    if S'.length == S.length then S else peel G k f S'
+
+/-- the nodes surviving repeated deletion of nodes of degree below `k` -/
+def kcoreDef (G : Graph) (k : Nat) : List Nat := peel G k G.nodes.length G.nodes
+
+/-- the largest `k ≤ n` for which `v` survives -/
+def coreNumDef (G : Graph) (v : Nat) : Nat :=
+  (List.range (G.nodes.length + 1)).foldl (fun best k => if (kcoreDef G k).contains v then k else best) 0
+
+/-! ## Mirror: the symmetric insertion-ordered adjacency -/
+
+/-- `adj[v][w] = …` on a dict used as an ordered set -/
+def insNb (adj : List (Nat × List Nat)) (v w : Nat) : List (Nat × List Nat) :=
+  let l := aget adj v []
+  if l.contains w then adj else aset adj v (l ++ [w])
+
+def addEdge (adj : List (Nat × List Nat)) (v w : Nat) : List (Nat × List Nat) :=
+  insNb (insNb adj v w) w v
+
+/-- `for v in node_list: for w in neighbors(v): if w in node_set and w != v: add both ways` -/
+def buildAdj (G : Graph) : List (Nat × List Nat) :=
+  G.nodes.foldl (fun adj v =>
+    (G.nb v).foldl (fun adj w => if G.nodes.contains w && w != v then addEdge adj v w else adj) adj)
+    (G.nodes.map fun v => (v, []))
+
+/-- neighbours of `v` in the symmetrised graph, in dict order -/
+def Graph.sadj (G : Graph) (v : Nat) : List Nat := aget (buildAdj G) v []
+
+/-! ## Mirror: low-link DFS (`articulation_points`, `bridges`, repaired to walk `sadj`) -/
+
+structure DSt where
+  disc   : List (Nat × Nat) := []
+  low    : List (Nat × Nat) := []
+  parent : List (Nat × Option Nat) := []
+  ap     : List Nat := []            -- the set `ap`, insertion order
+  br     : List (Nat × Nat) := []    -- `bridge_list`
+  time   : Nat := 0
+  iters  : Nat := 0
+
+def dfs (adj : Nat → List Nat) : Nat → Nat → DSt → DSt
+  | 0, _, st => st
+  | fuel+1, v, st =>
+    let st := { st with iters := st.iters + 1, disc := aset st.disc v st.time,
+                        low := aset st.low v st.time, time := st.time + 1 }
+    let r := (adj v).foldl (fun (acc : DSt × Nat) w =>
+      let st := acc.1
+      let children := acc.2
+      if !hasKey st.disc w then
+        let st := { st with parent := aset st.parent w (some v) }
+        let st := dfs adj fuel w st
+        let lw := aget st.low w 0
+        let st := { st with low := aset st.low v (min (aget st.low v 0) lw) }
+        let dv := aget st.disc v 0
+        let st := match aget st.parent v none with
+          | none => if children + 1 ≥ 2 then { st with ap := addSet st.ap v } else st
+          | some _ => if lw ≥ dv then { st with ap := addSet st.ap v } else st
+        let st := if lw > dv then { st with br := st.br ++ [if v < w then (v, w) else (w, v)] } else st
+        (st, children + 1)
+      else if aget st.parent v none != some w then
+        ({ st with low := aset st.low v (min (aget st.low v 0) (aget st.disc w 0)) }, children)
+      else acc) (st, 0)
+    r.1
+
+/-- the outer `for v in node_list: if v not in discovery` loop; returns (cut vertices, bridges) -/
+def lowlink (G : Graph) : List Nat × List (Nat × Nat) :=
+  if G.nodes.length ≤ 1 then ([], []) else
+  let st := G.nodes.foldl (fun (st : DSt) v =>
+    if hasKey st.disc v then st
+    else dfs G.sadj (G.nodes.length + 1) v { st with parent := aset st.parent v none }) {}
+  (st.ap, st.br)
+
+/-! ## Mirror: k-core bucket peeling -/
+
+structure KSt where
+  degree  : List (Nat × Nat)
+  buckets : List (List Nat)
+  core    : List (Nat × Nat)   -- `core_number`, insertion order
+  iters   : Nat
+
+/-- `for w in adj[v]: if w not in core_number: …` -/
+def kRelax (sadj : Nat → List Nat) (k v : Nat) (st : KSt) : KSt :=
+  (sadj v).foldl (fun st w =>
+    if hasKey st.core w then st else
+    let old := aget st.degree w 0
+    if old > k then
+      { st with buckets := modAt (· ++ [w]) (modAt (·.erase w) st.buckets old) (max k (old - 1)),
+                degree := aset st.degree w (old - 1) }
+    else st) st
+
+/-- `while buckets[k]: v = buckets[k].pop(); …` (`pop` takes the first element) -/
+def kLevel (sadj : Nat → List Nat) (k : Nat) : Nat → KSt → KSt
+  | 0, st => st
+  | f+1, st =>
+    match st.buckets.getD k [] with
+    | [] => st
+    | v :: _ =>
+      let st := { st with iters := st.iters + 1, buckets := modAt (·.erase v) st.buckets k,
+                          core := aset st.core v k }
+      kLevel sadj k f (kRelax sadj k v st)
+
+/-- `kcore_decomposition`: the dict `core_number` in insertion order -/
+def kcoreMirror (G : Graph) : List (Nat × Nat) :=
+  if G.nodes.isEmpty then [] else
+  let deg := G.nodes.map fun v => (v, (G.sadj v).length)
+  let maxd := deg.foldl (fun m p => max m p.2) 0
+  let buckets := (List.range (maxd + 1)).map fun d => G.nodes.filter fun v => aget deg v 0 == d
+  let st := (List.range (maxd + 1)).foldl (fun st k => kLevel G.sadj k (G.nodes.length + 1) st)
+    ⟨deg, buckets, [], 0⟩
+  st.core
+
+/-- `kcore(k)` -/
+def kcoreSetMirror (G : Graph) (k : Nat) : List Nat :=
+  ((kcoreMirror G).filter fun p => p.2 ≥ k).map (·.1)
+
+/-! ## Scalars: one text, two instantiations -/
+
+structure Ops (α : Type) where
+  ofNat : Nat → α
+  add : α → α → α
+  sub : α → α → α
+  mul : α → α → α
+  div : α → α → α
+  lt  : α → α → Bool
+  le  : α → α → Bool
+  abs : α → α
+  sum : List α → α      -- Python's builtin `sum` over floats
+
+def ratOps : Ops Rat where
+  ofNat n := (n : Rat)
+  add a b := a + b
+  sub a b := a - b
+  mul a b := a * b
+  div a b := a / b
+  lt a b := decide (a < b)
+  le a b := decide (a ≤ b)
+  abs a := if a < 0 then -a else a
+  sum l := l.sum
+
+/-- CPython 3.12 `sum()` on floats: the first item is added to the integer 0 (exact), the rest
+goes through Neumaier's compensated summation; the compensation is added at the end. -/
+def pySumF : List Float → Float
+  | [] => 0.0
+  | x :: rest =>
+    let rc := rest.foldl (fun (rc : Float × Float) x =>
+      let t := rc.1 + x
+      if rc.1.abs ≥ x.abs then (t, rc.2 + ((rc.1 - t) + x)) else (t, rc.2 + ((x - t) + rc.1))) (x, 0.0)
+    if rc.2 != 0.0 && rc.2.isFinite then rc.1 + rc.2 else rc.1
+
+def floatOps : Ops Float where
+  ofNat n := Float.ofNat n
+  add a b := a + b
+  sub a b := a - b
+  mul a b := a * b
+  div a b := a / b
+  lt a b := decide (a < b)
+  le a b := decide (a ≤ b)
+  abs a := a.abs
+  sum := pySumF
+
+/-! ## Mirror: PageRank -/
+
+/-- `incoming[v]`: every `u` (node order) once per occurrence of `v` in `neighbors(u)` -/
+def prIncoming (G : Graph) (v : Nat) : List Nat :=
+  G.nodes.flatMap fun u => ((G.nb u).filter (· == v)).map fun _ => u
+
+/-- `outgoing_count[u]`: entries of `neighbors(u)` inside the node set, with multiplicity -/
+def outCount (G : Graph) (u : Nat) : Nat := ((G.nb u).filter G.nodes.contains).length
+
+/-- one iteration of the power method: `new_scores[v]` as a function of the old scores -/
+def prStep {α} (O : Ops α) (G : Graph) (d : α) (s : Nat → α) (v : Nat) : α :=
+  let n := O.ofNat G.nodes.length
+  let base := O.div (O.sub (O.ofNat 1) d) n
+  let dsum := O.sum ((G.nodes.filter fun u => outCount G u == 0).map s)
+  let dc := O.div (O.mul d dsum) n
+  let rank := O.sum ((prIncoming G v).map fun u => O.div (s u) (O.ofNat (outCount G u)))
+  O.add (O.add base (O.mul d rank)) dc
+
+structure PrOut (α : Type) where
+  scores : List (Nat × α)
+  maxDiff : α
+  iters : Nat
+  status : Status
+
+def prLoop {α} (O : Ops α) (G : Graph) (d tol : α) : Nat → Nat → List (Nat × α) → α → PrOut α
+  | 0, it, sc, md => ⟨sc, md, it, .MAX_ITER⟩
+  | r+1, it, sc, _ =>
+    let s := fun v => aget sc v (O.ofNat 0)
+    let new := G.nodes.map fun v => (v, prStep O G d s v)
+    let md := G.nodes.foldl (fun md v =>
+      let x := O.abs (O.sub (aget new v (O.ofNat 0)) (s v))
+      if O.lt md x then x else md) (O.ofNat 0)
+    if O.lt md tol then ⟨new, md, it + 1, .OPTIMAL⟩ else prLoop O G d tol r (it + 1) new md
+
+/-- `pagerank(nodes, neighbors, damping, max_iter, tol)` for `max_iter ≥ 1` -/
+def pagerank {α} (O : Ops α) (G : Graph) (d tol : α) (maxIter : Nat) : PrOut α :=
+  if G.nodes.isEmpty then ⟨[], O.ofNat 0, 0, .OPTIMAL⟩ else
+  let init := G.nodes.map fun v => (v, O.div (O.ofNat 1) (O.ofNat G.nodes.length))
+  prLoop O G d tol maxIter 0 init (O.ofNat 0)
+
+/-- Verified-checker side: residual of the damped PageRank equation at `Rat` (largest over nodes) -/
+def prResidual (G : Graph) (d : Rat) (s : Nat → Rat) : Rat :=
+  G.nodes.foldl (fun m v => let x := ratOps.abs (s v - prStep ratOps G d s v); if m < x then x else m) 0
+
+/-- scores ≥ 0, |Σ − 1| ≤ eps, every node's equation holds within `bound` -/
+def prCheck (G : Graph) (d : Rat) (s : Nat → Rat) (eps bound : Rat) : Bool :=
+  G.nodes.all (fun v => decide (0 ≤ s v)) &&
+  decide (ratOps.abs ((G.nodes.map s).sum - 1) ≤ eps) &&
+  G.nodes.all (fun v => decide (ratOps.abs (s v - prStep ratOps G d s v) ≤ bound))
+
+/-! ## Mirror: Louvain -/
+
+structure LSt (α : Type) where
+  n2c    : List (Nat × Nat)    -- `node_to_comm`
+  cnodes : List (List Nat)     -- `comm_nodes`, index = community id
+  cdeg   : List α              -- `comm_degree`
+
+/-- `comm_nodes[cur].remove(v); comm_degree[cur] -= v_degree` -/
+def lRemove {α} (O : Ops α) (st : LSt α) (v cur : Nat) (vdeg : α) : LSt α :=
+  { st with cnodes := modAt (·.erase v) st.cnodes cur, cdeg := modAt (O.sub · vdeg) st.cdeg cur }
+
+/-- `node_to_comm[v] = best; comm_nodes[best].add(v); comm_degree[best] += v_degree` -/
+def lInsert {α} (O : Ops α) (st : LSt α) (v best : Nat) (vdeg : α) : LSt α :=
+  { n2c := aset st.n2c v best, cnodes := modAt (addSet · v) st.cnodes best,
+    cdeg := modAt (O.add · vdeg) st.cdeg best }
+
+/-- the bookkeeping of one move, whatever community was chosen -/
+def moveNode {α} (O : Ops α) (st : LSt α) (v best : Nat) (vdeg : α) : LSt α :=
+  lInsert O (lRemove O st v (aget st.n2c v 0) vdeg) v best vdeg
+
+/-- `comm_edges`: insertion-ordered `defaultdict(float)` -/
+def commEdges {α} (O : Ops α) (n2c : List (Nat × Nat)) (nbrs : List Nat) : List (Nat × α) :=
+  nbrs.foldl (fun ce w =>
+    let c := aget n2c w 0
+    aset ce c (O.add (aget ce c (O.ofNat 0)) (O.ofNat 1))) []
+
+/-- `edges - resolution * v_degree * sigma / (2 * total_weight)` -/
+def lGain {α} (O : Ops α) (γ tw vdeg e sigma : α) : α :=
+  O.sub e (O.div (O.mul (O.mul γ vdeg) sigma) (O.mul (O.ofNat 2) tw))
+
+/-- best community: strict improvement over the running best in `comm_edges` order, then the
+`stay_gain >= best_gain` preference for the current community (`cdeg` is after the removal) -/
+def chooseComm {α} (O : Ops α) (γ tw vdeg : α) (cur : Nat) (ce : List (Nat × α)) (cdeg : List α) : Nat :=
+  let z := O.ofNat 0
+  let bg := ce.foldl (fun (bg : Nat × α) p =>
+    let gain := lGain O γ tw vdeg p.2 (cdeg.getD p.1 z)
+    if O.lt bg.2 gain then (p.1, gain) else bg) (cur, z)
+  if cur != bg.1 then
+    let stay := lGain O γ tw vdeg (aget ce cur z) (cdeg.getD cur z)
+    if O.le bg.2 stay then cur else bg.1
+  else bg.1
+
+def lNodeStep {α} (O : Ops α) (sadj : Nat → List Nat) (γ tw : α) (st : LSt α) (v : Nat) : LSt α × Bool :=
+  let cur := aget st.n2c v 0
+  let vdeg := O.ofNat (sadj v).length
+  let ce := commEdges O st.n2c (sadj v)
+  let st1 := lRemove O st v cur vdeg
+  let best := chooseComm O γ tw vdeg cur ce st1.cdeg
+  (lInsert O st1 v best vdeg, best != cur)
+
+def lPass {α} (O : Ops α) (sadj : Nat → List Nat) (γ tw : α) (nodes : List Nat) (st : LSt α) : LSt α × Bool :=
+  nodes.foldl (fun (acc : LSt α × Bool) v =>
+    let r := lNodeStep O sadj γ tw acc.1 v
+    (r.1, acc.2 || r.2)) (st, false)
+
+/-- `while improved:`; `none` when the fuel runs out -/
+def lLoop {α} (O : Ops α) (sadj : Nat → List Nat) (γ tw : α) (nodes : List Nat) :
+    Nat → LSt α → Nat → Option (LSt α × Nat)
+  | 0, _, _ => none
+  | f+1, st, it =>
+    let r := lPass O sadj γ tw nodes st
+    if r.2 then lLoop O sadj γ tw nodes f r.1 (it + 1) else some (r.1, it + 1)
+
+/-- the final modularity computation of `louvain` -/
+def reportMod {α} (O : Ops α) (sadj : Nat → List Nat) (γ tw : α) (comms : List (List Nat)) : α :=
+  comms.foldl (fun q c =>
+    let ew := O.sum (c.flatMap fun v => (c.filter fun w => decide (v < w)).map fun w =>
+      if (sadj v).contains w then O.ofNat 1 else O.ofNat 0)
+    let cd := O.sum (c.map fun v => O.ofNat (sadj v).length)
+    let x := O.div cd (O.mul (O.ofNat 2) tw)
+    O.add q (O.sub (O.div ew tw) (O.mul γ (O.mul x x)))) (O.ofNat 0)
+
+structure LvOut (α : Type) where
+  comms : List (List Nat)
+  modularity : α
+  iters : Nat
+
+def lInit {α} (O : Ops α) (G : Graph) : LSt α :=
+  { n2c := G.nodes.zipIdx.map fun p => (p.1, p.2),
+    cnodes := G.nodes.map fun v => [v],
+    cdeg := G.nodes.map fun v => O.ofNat (G.sadj v).length }
+
+/-- `louvain(nodes, neighbors, resolution)`; `none` = the `while improved` loop outlived the fuel -/
+def louvain {α} (O : Ops α) (G : Graph) (γ : α) (fuel : Nat) : Option (LvOut α) :=
+  match G.nodes with
+  | [] => some ⟨[], O.ofNat 0, 0⟩
+  | [v] => some ⟨[[v]], O.ofNat 0, 0⟩
+  | _ =>
+    let m2 := (G.nodes.map fun v => (G.sadj v).length).sum
+    if m2 == 0 then some ⟨G.nodes.map fun v => [v], O.ofNat 0, 0⟩ else
+    let tw := O.div (O.ofNat m2) (O.ofNat 2)
+    match lLoop O G.sadj γ tw G.nodes fuel (lInit O G) 0 with
+    | none => none
+    | some (st, it) =>
+      let comms := st.cnodes.filter fun c => !c.isEmpty
+      some ⟨comms, reportMod O G.sadj γ tw comms, it⟩
+
+/-! ## Spec: partitions and the modularity formula -/
+
+/-- every community non-empty, duplicate-free and inside the node set; every node in exactly one -/
+def isPartition (nodes : List Nat) (P : List (List Nat)) : Bool :=
+  P.all (fun c => !c.isEmpty && decide c.Nodup && c.all nodes.contains) &&
+  nodes.all (fun v => (P.filter (·.contains v)).length == 1)
+
+/-- undirected simple degree in the symmetric closure -/
+def degDef (G : Graph) (v : Nat) : Nat := degIn G G.nodes v
+
+/-- `Q = Σ_c [ L_c / m − γ (D_c / 2m)² ]`, `L_c` = edges inside `c`, `D_c` = total degree of `c`,
+`m` = number of edges (half the degree sum) -/
+def modularityDef (G : Graph) (γ : Rat) (P : List (List Nat)) : Rat :=
+  let m : Rat := ((G.nodes.map (degDef G)).sum : Nat) / 2
+  (P.map fun c =>
+    let L : Nat := (c.flatMap fun v => c.filter fun w => v < w && (G.arc v w || G.arc w v)).length
+    let D : Nat := (c.map (degDef G)).sum
+    (L : Rat) / m - γ * (((D : Rat) / (2 * m)) * ((D : Rat) / (2 * m)))).sum
 
 end Solvor.Net
